@@ -31,6 +31,13 @@ def apply(chk, rid, modules):
         m = chk.repo.mod(mn)
         for q, f in m.functions():
             for b in ast.walk(f):
+                if isinstance(b, ast.AugAssign) and isinstance(b.op, ast.BitOr) and unparse(b.value) == "target_db":
+                    # results |= target_db is dict.__ior__ on the results: the TARGET's series win
+                    n += 1
+                    chk.saw(m, q)
+                    chk.ob(rid, f"{mn.replace('irispie.', '')}.{q}[{unparse(b)}]", False,
+                           f"{unparse(b)}: the results are updated in place with the target, so series the target already holds override the results just computed",
+                           m.loc(b), sure=True)
                 if isinstance(b, ast.BinOp) and isinstance(b.op, ast.BitOr) and "target_db" in (unparse(b.left), unparse(b.right)):
                     n += 1
                     chk.saw(m, q)
